@@ -80,6 +80,22 @@ theorem C04_plain_sources (E : Bytes → Bytes → Bytes) (s : State) (file : By
     getData E s file start sec off (sz : Int) = .ok (slice (plainSrc s file start sec) off sz) :=
   gd_plain E s file start hplain sec off sz hsz h
 
+/-- `get_data` serves slices of the section plaintext `secSrc` for EVERY section — plain window, CTR-decrypted window, or the
+    two-key ExeFS concatenation — so the `get_data` hypothesis of the one-image theorem is discharged, not assumed -/
+theorem C04_section_sources (E : Bytes → Bytes → Bytes) (s : State) (file : Bytes) (start : Nat) (sec off sz : Nat) (hsz : 0 < sz)
+    (h : off + sz ≤ (secSrc E s file start sec).length) :
+    getData E s file start sec off (sz : Int) = .ok (slice (secSrc E s file start sec) off sz) :=
+  gd_secSrc E s file start sec off sz hsz h
+
+/-- **one consistent image, with every hypothesis decidable.**  `readGeomB` (regions apart, every chunk inside its section's
+    plaintext, header = chunk 0) is evaluated by the driver on every generated image; when it holds, every in-range read of the
+    fully-decrypted view is the slice of the one image built from the section plaintexts -/
+theorem C04_one_image_checked (E : Bytes → Bytes → Bytes) (s : State) (file : Bytes) (start : Nat) (N : Nat)
+    (hg : readGeomB E s file start N = true) (r : Region) (hr : s.region? secFull = some r) (offset size : Nat) (hs : 0 < size)
+    (h1 : offset + size ≤ r.size) (h2 : start + offset + size ≤ file.length) (h3 : offset + size ≤ 0x200 * N) :
+    fullRead E s file start offset (size : Int) = .ok (slice (fullImage s (secSrc E s file start) N) offset size) :=
+  fullRead_spec E s file start (secSrc E s file start) N (readGeom_of_b E s file start N hg) r hr offset size hs h1 h2 h3
+
 /-- the decidable geometry criterion implies the disjointness the theorems use -/
 theorem C04_apart (s : State) (h : regionsApart s = true) : RegionsDisjoint s := regionsDisjoint_of_apart s h
 
